@@ -721,23 +721,67 @@ func (x *Exec) evalCall(st *State, fr *Frame, e ECall, sc *scope) (Val, error) {
 		}
 		return Val{}, fmt.Errorf("payload(): dynamic value of the interface is not statically known")
 	case "lastret":
-		// lastret("pattern"): the value the most recent call to a matching callee returned on this path
-		// (for several results: the last one, i.e. the error)
+		// lastret("pattern"[, k]): the value the most recent call to a matching callee returned on this
+		// path (for several results: the k-th, by default the last one, i.e. the error)
 		if lit, ok := e.Args[0].(EStr); ok && st != nil {
-			for _, k := range sortedKeys(st.meta) {
-				if strings.HasPrefix(k, "ret:") && matchCallee(lit.V, k[4:]) {
-					v := st.meta[k]
+			k := -1
+			if len(e.Args) == 2 {
+				if n, ok := e.Args[1].(EInt); ok {
+					fmt.Sscan(n.V, &k)
+				}
+			}
+			for _, key := range sortedKeys(st.meta) {
+				if strings.HasPrefix(key, "ret:") && matchCallee(lit.V, key[4:]) {
+					v := st.meta[key]
 					if len(v.Tup) > 0 {
+						if k >= 0 && k < len(v.Tup) {
+							return v.Tup[k], nil
+						}
 						return v.Tup[len(v.Tup)-1], nil
 					}
 					return v, nil
 				}
 			}
-			// no such call on this path: an arbitrary value (sound: unconstrained); typed as an
-			// interface value because lastret is used on error results
+			// no such call on this path: an arbitrary value (sound: unconstrained) of the callee's
+			// result type when a function of that name is known, else an interface value (lastret
+			// is mostly used on error results)
+			for _, name := range sortedKeys(x.P.Funcs) {
+				if !matchCallee(lit.V, name) {
+					continue
+				}
+				res := x.P.Funcs[name].Signature.Results()
+				if res.Len() == 0 {
+					break
+				}
+				i := res.Len() - 1
+				if k >= 0 && k < res.Len() {
+					i = k
+				}
+				return x.freshVal(st, "lastret.none", res.At(i).Type()), nil
+			}
 			return Val{T: x.D.Fresh("lastret.none", SIface)}, nil
 		}
 		return Val{}, fmt.Errorf("lastret needs a string literal")
+	case "lastarg":
+		// lastarg("pattern", k): the k-th argument (receiver first for methods) handed to the most
+		// recent call of a matching callee on this path; unconstrained if there was no such call
+		if lit, ok := e.Args[0].(EStr); ok && st != nil && len(e.Args) == 2 {
+			k := -1
+			if n, ok := e.Args[1].(EInt); ok {
+				fmt.Sscan(n.V, &k)
+			}
+			for _, key := range sortedKeys(st.meta) {
+				if strings.HasPrefix(key, "args:") && matchCallee(lit.V, key[5:]) {
+					v := st.meta[key]
+					if k >= 0 && k < len(v.Tup) {
+						return v.Tup[k], nil
+					}
+					return Val{}, fmt.Errorf("lastarg: call to %s has %d arguments", key[5:], len(v.Tup))
+				}
+			}
+			return Val{}, fmt.Errorf("lastarg: no call matching %q on this path", lit.V)
+		}
+		return Val{}, fmt.Errorf("lastarg needs a string literal and an index")
 	case "ncalls":
 		// ncalls("pattern"): number of calls made so far on this path to callees matching the pattern
 		if lit, ok := e.Args[0].(EStr); ok && st != nil {
@@ -750,6 +794,17 @@ func (x *Exec) evalCall(st *State, fr *Frame, e ECall, sc *scope) (Val, error) {
 			return Val{T: IntLit(int64(n))}, nil
 		}
 		return Val{}, fmt.Errorf("ncalls needs a string literal")
+	case "strofbytes":
+		// string(b): the string holding the bytes of b (same symbol as the model of the conversion)
+		x.D.DeclareFun("str.ofbytes", []string{SBytes}, SStr)
+		b := args[0].T
+		if b.Sort == SSlice {
+			b = x.bytesOfIn(x.heapFor(st, sc), b)
+		}
+		if b.Sort != SBytes {
+			return Val{}, fmt.Errorf("strofbytes(): argument is not a byte slice")
+		}
+		return Val{T: App(SStr, "str.ofbytes", b)}, nil
 	case "bytesofstr":
 		// content of []byte(s)
 		x.D.DeclareFun("bytes.ofstr", []string{SStr}, SBytes)
